@@ -249,7 +249,8 @@ class CallMixin:
                 s2 = st.fork()
                 self.emit(s2, fx, "ENCODE", node, obj=recv, cls=cls.qual, ok=False, exc=exc_cls)
                 yield "raise", ("exc", exc_cls, (), s2.uid()), s2
-            self.emit(st, fx, "ENCODE", node, obj=recv, cls=cls.qual, ok=True)
+            self.emit(st, fx, "ENCODE", node, obj=recv, cls=cls.qual, ok=True,
+                      fields={k[1]: v for k, v in st.heap.items() if k[0] == recv})
             st.heap[(recv, "encoded")] = ("encbuf", recv)
             yield "ok", ("encres", recv), st
         else:
